@@ -16,7 +16,7 @@ Separate Extraction
   Octets.le_val Octets.be_val Octets.le_bytes Octets.be_bytes Octets.min_be_bytes
   Octets.hex_encode Octets.hex_decode Decimal.dec_of_Z Decimal.parse_dec
   Utils.SwapEndianness Utils.BigIntLEBytes Utils.SetBigIntFromLEBytes
-  Utils.HexEncode Utils.HexDecode Utils.HexDecodeInto Utils.CheckBigIntInField
+  Utils.HexEncode Utils.HexDecode Utils.HexDecodeInto Utils.CheckBigIntInField Utils.CheckBigIntArrayInField
   Utils.HexString
   BabyJub.Q BabyJub.A BabyJub.D BabyJub.Order BabyJub.SubOrder BabyJub.B8
   BabyJub.Add BabyJub.Mul BabyJub.Projective BabyJub.Affine BabyJub.InCurve
